@@ -52,7 +52,9 @@ def first_diff(a, b):
 
 def poison(arr):
     k = arr.dtype.kind
-    if k in 'fc':
+    if k == 'c':
+        arr.fill(complex(np.nan, np.nan))       # both parts: a routine that writes only the real part must be seen
+    elif k == 'f':
         arr.fill(np.nan)
     else:
         arr.fill(-0x5A5A5A5A)
